@@ -114,7 +114,7 @@ def session_replay(rep, algopy, hist, mutate=None):
 def session_check(rep, algopy, tier):
     q = tier == "quick"
     runs = [("ProgsQuick", "PtsQuick", "KindsAll", "D123", 2, 4)] if q else \
-           [("ProgsAll", "PtsAll", "KindsAll", "D123", 2, 4), ("ProgsQuick", "PtsQuick", "KindsTensor", "D1234", 3, 6)]
+           [("ProgsAll", "PtsAll", "KindsAll", "D123", 2, 4), ("ProgsQuick", "PtsQuick", "KindsTensor", "D123", 3, 6)]
     first = None
     for r_ in runs:
         res = tlc_ok(run_tlc("MC_DriverSession", SESSION_CFG % r_, workers=16, timeout=2400), "MC_DriverSession")
